@@ -564,7 +564,20 @@ impl Router {
             );
         }
 
+        // subscriptions restored from a saved session (empty for a new session)
+        let restored_subscriptions = connection.subscriptions.clone();
+
         let connection_id = self.connections.insert(connection);
+
+        // A resumed session gets a new connection id: register it for the restored
+        // subscriptions, otherwise a later UNSUBSCRIBE of these filters finds nothing
+        for filter in restored_subscriptions {
+            self.subscription_map
+                .entry(filter)
+                .or_default()
+                .insert(connection_id);
+        }
+
         assert_eq!(self.ibufs.insert(incoming), connection_id);
         assert_eq!(self.obufs.insert(outgoing), connection_id);
 
